@@ -4,6 +4,7 @@ package c03
 import (
 	"encoding/json"
 	"fmt"
+	"runtime/debug"
 	"sort"
 	"strconv"
 	"strings"
@@ -35,6 +36,12 @@ var poolInfix2 = &hist.Pool{
 	Patterns: []string{"/*{x}/b/*{y}/c", "/*{x}/b/*{y}/cd", "/*{x}/b/*{y}/c/e", "/*{x}/b/*{y}/cde", "/*{x}/b"},
 }
 
+// poolMethods: several custom methods (the method-root slice grows, shrinks and shifts).
+var poolMethods = &hist.Pool{
+	Methods:  []string{"GET", "FOO", "BAR"},
+	Patterns: []string{"/a", "/a/b"},
+}
+
 // pool / probes / serveProbe are switched by usePool before a run.
 var pool = poolPrefix
 
@@ -44,6 +51,13 @@ func usePool(name string) {
 		probes = []probe{{"GET", "/a"}, {"GET", "/b"}, {"GET", "/c"}, {"GET", "/d"}, {"GET", "/z"}, {"GET", "/z/y"}, {"FOO", "/a"}}
 		serveProbe = "/z"
 		prefixes = []string{"/", "/a", "/b", "/*"}
+		return
+	}
+	if name == "methods" {
+		pool = poolMethods
+		probes = []probe{{"GET", "/a"}, {"GET", "/a/b"}, {"FOO", "/a"}, {"BAR", "/a"}, {"BAR", "/a/b"}, {"PUT", "/a"}}
+		serveProbe = "/a"
+		prefixes = []string{"/", "/a", "/a/"}
 		return
 	}
 	if name == "infix2" {
@@ -74,6 +88,16 @@ func (w wop) String() string {
 
 func alphabet() []wop {
 	var out []wop
+	if pool == poolMethods {
+		for _, m := range pool.Methods {
+			for _, k := range []int{hist.Handle, hist.Update, hist.Delete} {
+				out = append(out, wop{Kind: k, Method: m, Pattern: "/a"})
+			}
+			out = append(out, wop{Kind: hist.Truncate, Method: m})
+		}
+		out = append(out, wop{Kind: hist.Handle, Method: "BAR", Pattern: "/a/b"}, wop{Kind: hist.Truncate, Method: "FOO,BAR"}, wop{Kind: hist.Truncate})
+		return out
+	}
 	for _, p := range pool.Patterns {
 		for _, k := range []int{hist.Handle, hist.Update, hist.Delete} {
 			out = append(out, wop{Kind: k, Method: "GET", Pattern: p})
@@ -246,7 +270,7 @@ func applyW(f *fox.Router, w writer, txn *fox.Txn, o wop, ver int) {
 			if o.Method == "" {
 				return t.Truncate()
 			}
-			return t.Truncate(o.Method)
+			return t.Truncate(strings.Split(o.Method, ",")...)
 		}
 		if txn != nil {
 			tr(txn)
@@ -258,6 +282,15 @@ func applyW(f *fox.Router, w writer, txn *fox.Txn, o wop, ver int) {
 
 // evalCase runs one case; twin (no snapshots at all) gives the reference final state.
 func evalCase(cs Case) (class, msg string) {
+	defer func() {
+		if p := recover(); p != nil {
+			class, msg = "panic", fmt.Sprintf("panic: %v\n%s\n    case: pool %s seed %v ops %v mode %d", p, mc.NormStack(string(debug.Stack()), 12), cs.Pool, cs.Seed, cs.Ops, cs.Mode)
+		}
+	}()
+	return evalCase0(cs)
+}
+
+func evalCase0(cs Case) (class, msg string) {
 	usePool(cs.Pool)
 	desc := func() string {
 		parts := make([]string, len(cs.Ops))
@@ -385,6 +418,19 @@ func ind(s string) string {
 
 func seeds() [][]hist.Key {
 	var out [][]hist.Key
+	if pool == poolMethods {
+		all := []hist.Key{{Method: "GET", Pattern: "/a"}, {Method: "FOO", Pattern: "/a"}, {Method: "BAR", Pattern: "/a"}, {Method: "BAR", Pattern: "/a/b"}}
+		for mask := 0; mask < 1<<len(all); mask++ {
+			var sd []hist.Key
+			for i := range all {
+				if mask&(1<<i) != 0 {
+					sd = append(sd, all[i])
+				}
+			}
+			out = append(out, sd)
+		}
+		return out
+	}
 	gp := pool.Patterns
 	for mask := 0; mask < 1<<len(gp); mask++ {
 		var s []hist.Key
@@ -664,6 +710,7 @@ func init() {
 				runSeq(c, r, "prefixes")
 				runSeq(c, r, "siblings")
 				runSeq(c, r, "infix2")
+				runSeq(c, r, "methods")
 			}, Replay: func(c *mc.Ctx, raw json.RawMessage) string {
 				un := mc.DeterministicPools()
 				defer un()
